@@ -7,6 +7,7 @@ import (
 	"crypto/sha256"
 	"errors"
 	"fmt"
+	"strings"
 	"sync"
 	"testing/synctest"
 	"time"
@@ -33,17 +34,17 @@ type callRec struct {
 }
 
 type endpoint struct {
-	name    string // "c" | "s"
-	side    Side
-	tr      *quic.Transport
-	conn    *quic.Conn
-	connAt  time.Duration
-	mu      sync.Mutex
-	calls   []*callRec
-	ended   chan struct{}
-	endAt   time.Duration
-	endErr  error
-	didEnd  bool
+	name     string // "c" | "s"
+	side     Side
+	tr       *quic.Transport
+	conn     *quic.Conn
+	connAt   time.Duration
+	mu       sync.Mutex
+	calls    []*callRec
+	ended    chan struct{}
+	endAt    time.Duration
+	endErr   error
+	didEnd   bool
 	readStr  *quic.Stream
 	writeStr interface {
 		Write([]byte) (int, error)
@@ -57,48 +58,51 @@ type endpoint struct {
 		Read([]byte) (int, error)
 		SetReadDeadline(time.Time) error
 	}
-	xferBytes int
-	neverEnded bool
+	xferBytes      int
+	neverEnded     bool
 	pendingAtCause []string
 }
 
 // result is everything the oracle needs.
 type result struct {
-	c        Case
-	w        *sim.World
-	rtt      time.Duration
-	C, S     *endpoint
-	tArm     time.Duration
-	tCause   time.Duration // when the cause was triggered (local action / injection / blackout start)
-	causeAt  time.Duration // time the local action returned
-	closer   string        // endpoint that called CloseWithError ("" if none)
-	forgeRec int           // log index of the forged datagram (-1)
-	forgeCode uint64
-	forgeName string
-	forgeSkipped string
-	dialErr  error
-	dialAt   time.Duration
-	dialStart time.Duration
-	dialDone bool
-	cancelAt time.Duration
-	cancelDone bool
-	lnAccept *callRec // the second, blocked Listener.Accept
-	accept1  *callRec
-	pokeAt   time.Duration
+	c                    Case
+	w                    *sim.World
+	rtt                  time.Duration
+	C, S                 *endpoint
+	tArm                 time.Duration
+	tCause               time.Duration // when the cause was triggered (local action / injection / blackout start)
+	causeAt              time.Duration // time the local action returned
+	closer               string        // endpoint that called CloseWithError ("" if none)
+	forgeRec             int           // log index of the forged datagram (-1)
+	forgeCode            uint64
+	forgeName            string
+	forgeSkipped         string
+	dialErr              error
+	dialAt               time.Duration
+	dialStart            time.Duration
+	dialDone             bool
+	cancelAt             time.Duration
+	cancelDone           bool
+	lnAccept             *callRec // the second, blocked Listener.Accept
+	accept1              *callRec
+	pokeAt               time.Duration
 	replayFrom, replayTo time.Duration
-	replayed int
-	trickled int
-	routing  []string // non-empty: entries still routed at the resource check
-	routingAt time.Duration
-	harness  string // scenario could not be set up as planned (reported, not a property violation)
-	log      []*sim.Record
-	notes    []string
-	stuck    []string // calls that had to be released by the harness
-	trB      *quic.Transport // replacement server transport (stateless reset cause)
-	lnB      *quic.Listener
-	serverTLS func() *tls.Config
-	finalNow time.Duration
-	u        *vf.Unit
+	replayed             int
+	trickled             int
+	routing              []string // non-empty: entries still routed at the resource check
+	routingAt            time.Duration
+	harness              string // scenario could not be set up as planned (reported, not a property violation)
+	log                  []*sim.Record
+	notes                []string
+	stuck                []string        // calls that had to be released by the harness
+	trB                  *quic.Transport // replacement server transport (stateless reset cause)
+	lnB                  *quic.Listener
+	serverTLS            func() *tls.Config
+	tap                  *tapState
+	causeDone            chan struct{} // closed when doCause has finished (edge phase: it runs in the Dial / Accept goroutine)
+	nmu                  sync.Mutex
+	finalNow             time.Duration
+	u                    *vf.Unit
 }
 
 func (r *result) ep(name string) *endpoint {
@@ -115,7 +119,11 @@ func (r *result) peer(e *endpoint) *endpoint {
 	return r.C
 }
 
-func (r *result) note(f string, a ...any) { r.notes = append(r.notes, fmt.Sprintf(f, a...)) }
+func (r *result) note(f string, a ...any) {
+	r.nmu.Lock()
+	r.notes = append(r.notes, fmt.Sprintf(f, a...))
+	r.nmu.Unlock()
+}
 
 // dirTo returns the router direction label of datagrams travelling to endpoint e.
 func dirTo(e string) string {
@@ -512,6 +520,7 @@ func runCase(c Case, res *result) {
 	rtt := time.Duration(c.RTTms) * ms
 	hsIdle := time.Duration(c.HSIdleMs) * ms
 	res.c, res.rtt, res.forgeRec = c, rtt, -1
+	res.causeDone = make(chan struct{})
 	hs := c.Phase == "handshake"
 
 	// ---- time plan (absolute virtual times since the world started)
@@ -557,6 +566,8 @@ func runCase(c Case, res *result) {
 	res.w = w
 	w.Observe()
 	w.Router.KeepData = true
+	res.tap = newTap()
+	w.Router.Tap = res.tap.tap
 
 	ctx, cancelAll := context.WithCancel(context.Background())
 	var wg sync.WaitGroup
@@ -626,8 +637,16 @@ func runCase(c Case, res *result) {
 		wg.Wait()
 		synctest.Wait()
 		res.finalNow = w.Router.Now()
-		res.log = append([]*sim.Record(nil), w.Router.Log...)
 		w.Close()
+		res.log = w.Router.Trace(1 << 30)
+		if res.forgeRec == -2 {
+			res.forgeRec = -1
+			for i, rec := range res.log {
+				if rec.Forged && strings.HasPrefix(rec.Notes, "forged:") {
+					res.forgeRec = i
+				}
+			}
+		}
 	}
 
 	// ---- server accept loop: first Accept yields the connection, the second stays blocked
@@ -796,6 +815,9 @@ func runCase(c Case, res *result) {
 	}
 
 	// ---- wait for both sides to end
+	if c.Phase == "edge" {
+		sim.WaitCtx(res.causeDone, 2*hsIdle+time.Second)
+	}
 	ptoUp := 3*rtt + 50*ms
 	eff := time.Duration(max(c.effIdle("c"), c.effIdle("s"))) * ms
 	horizon := res.tCause + 3*max(eff, 3*ptoUp) + 2*time.Second
